@@ -167,6 +167,12 @@ func (h *PortMappingHandler) CleanPortMapping(ports []k8s.Port) error {
 		if err := h.withRetry(func() error {
 			return h.DeleteRule(utiliptables.TableNAT, kubeHostportsChain, rule...)
 		}); err != nil {
+			if strings.Contains(err.Error(), "Couldn't load target") {
+				// the hostport chain has been deleted already, e.g. by the full sync at start time, a rule which
+				// jumps to it can't exist either
+				glog.V(4).Infof("skip deleting rule %s: %v", rule, err)
+				continue
+			}
 			err = fmt.Errorf("failed to delete rule %s: %v", rule, err)
 			glog.Warning(err)
 			return err
